@@ -20,9 +20,9 @@ PROPS = {
                 "request line; non-trivial = the read succeeds or fails with a payload-carrying error",
     },
     "C02": {"errkinds": False, "streams": [S("parse", 3000, 20000), S("acc", 1, 1), S("table", 600, 4000), S("ehdr", 8, 200), S("identstream", 1, 2), S("streamhdr", 1, 2), S("symver", 60, 500)],
-            "projection": "full", "also_tags": ["C05", "C07", "C10", "C13"], "extra_props": ["C02Acc"]},
+            "projection": "full", "also_tags": ["C05", "C10", "C13"], "extra_props": ["C02Acc"]},
     "C09": {"errkinds": False, "streams": [S("table", 2000, 8000), S("streamcache", 2, 6), S("streamfault", 3, 20)], "projection": "full", "also_tags": ["C17"]},
-    "C15": {"streams": [S("strtab", 2000, 20000), S("utf8", 500, 5000), S("stream", 20, 150), S("streamcache", 2, 6)], "projection": "full", "also_tags": ["C07", "C20"]},
+    "C15": {"streams": [S("strtab", 2000, 20000), S("utf8", 500, 5000), S("stream", 20, 150), S("streamcache", 2, 6)], "projection": "full"},
     "C10": {"errkinds": ["BadMagic", "UnsupportedElfClass", "UnsupportedVersion", "UnsupportedElfEndianness"], "streams": [S("ident", 800, 4000), S("identstream", 1, 2), S("file", 60, 400)], "projection": "full"},
     "C03": {"errkinds": False, "streams": [S("file", 150, 1500), S("sweep", 1, 3)], "projection": "parts:open=,S,P,T=", "also_tags": ["C13"]},
     "C05": {"errkinds": False, "streams": [S("file", 150, 1500), S("sweep", 1, 3), S("bigfile", 1, 1), S("stream", 40, 300), S("streamhdr", 1, 2), S("bigstream", 1, 1), S("streamcache", 2, 6), S("filehdr", 2, 6), S("streamfault", 3, 20)],
